@@ -243,6 +243,8 @@ def do_request(log, conn, cname, i, req, rnd, headers=(), mapped=False, src_over
         data = b"BLAH " + bytes(rnd.randrange(32, 127) for _ in range(40)) + b"\r\n\r\n"
     ncuts = req.get("ncuts", 0)
     cuts = req.get("cuts") or sorted(rnd.sample(range(1, len(data)), min(ncuts, len(data) - 1)))
+    if req.get("tail_cut"):
+        cuts = sorted(set(cuts + [len(data) - req["tail_cut"]]))
     ev = {"ev": "call", "conn": cname, "i": i, "kind": req["kind"], "src": src_override or src_desc(conn.src_ip, mapped),
           "h": req.get("h", 0), "port": req.get("port", 0), "event": req.get("event", "started"),
           "left": req.get("left", 1), "numwant": req.get("numwant", -1) if req.get("numwant") is not None else -1,
